@@ -89,9 +89,12 @@ func newServerPort(clk *clock, log *hookLogger, script []directive, port int) (*
 var loopbackCounter uint32
 
 func uniqueLoopback() string {
+	// (pid, counter) -> address: processes of one run (the scenarios re-run one per process listen on the
+	// fixed port 6600 for ApplyConfig) get different addresses as long as their pids differ by less than 120*250
 	n := atomic.AddUint32(&loopbackCounter, 1)
-	a := 1 + (uint32(os.Getpid())+n/62500)%120 // never 127.0.x.x
-	return fmt.Sprintf("127.%d.%d.%d", a, (n/250)%250, 1+n%250)
+	pid := uint32(os.Getpid())
+	a := 1 + (pid+n/250)%120 // never 127.0.x.x
+	return fmt.Sprintf("127.%d.%d.%d", a, (pid/120)%250, 1+n%250)
 }
 
 func (s *server) poke() {
@@ -325,6 +328,20 @@ func (s *server) snapshot() []*connObs {
 	for i, c := range s.conns {
 		cp := *c
 		cp.data = append([]byte(nil), c.data...)
+		out[i] = &cp
+	}
+	return out
+}
+
+// takeStreams: like snapshot, but the observation takes the received bytes over instead of copying
+// them.  Only after the server has stopped (shutdown, closeLive, wg.Wait): nothing appends any more.
+func (s *server) takeStreams() []*connObs {
+	s.mu.Lock()
+	defer s.mu.Unlock()
+	out := make([]*connObs, len(s.conns))
+	for i, c := range s.conns {
+		cp := *c
+		c.data, c.noParse = nil, true
 		out[i] = &cp
 	}
 	return out
